@@ -303,7 +303,7 @@ Lemma as_int_complete_lemma k s z :
   denotes k s z -> fits k z = true -> as_int_now k (HStr false s) = Ok (RInt z).
 Proof.
   intros Hd Hf. pose proof (as_int_exact_lemma k (HStr false s)) as H.
-  destruct (as_int_now k (HStr false s)) as [[z'| | | | | | | ]|e|]; try contradiction.
+  destruct (as_int_now k (HStr false s)) as [[z'| | | | | | | | ]|e|]; try contradiction.
   - destruct H as [H|(s' & E & Hd' & _)]; [discriminate|].
     injection E as <-. f_equal. f_equal.
     unfold denotes in *. destruct (signed k).
@@ -354,6 +354,17 @@ Lemma stored_err_lemma a v :
   access_now a {| val := v; has_err := true |} = Err EStored.
 Proof. destruct a; cbn; auto. intros H. exfalso. eapply H; reflexivity. Qed.
 
+(* JSONScan hands exactly the bytes AsBytes yields to json.Unmarshal, and fails as AsBytes fails *)
+Lemma jsonscan_lemma av :
+  access_now AJsonScan av =
+  match access_now (AAs AsBytes) av with
+  | Ok (RBytes b) => Ok (RJsonScan b)
+  | Ok _ => Err EOther
+  | Err e => Err e
+  | Panic => Panic
+  end.
+Proof. destruct av as [v e]; destruct e; reflexivity. Qed.
+
 (* OrDefault returns the default exactly when the strict accessor fails *)
 Lemma ordefault_lemma t d av :
   access_now (AOrDef t d) av =
@@ -382,7 +393,7 @@ Qed.
 
 Lemma access_never_panics_lemma a av : access_now a av <> Panic.
 Proof.
-  destruct av as [v e]. destruct a as [t|t|t d]; unfold access_now, access; cbn [has_err val].
+  destruct av as [v e]. destruct a as [t|t|t d|]; unfold access_now, access; cbn [has_err val].
   - destruct e; [discriminate|].
     pose proof (exact_exact_lemma t v). destruct (exact t v); [discriminate..|contradiction].
   - destruct e; [discriminate|].
@@ -400,6 +411,8 @@ Proof.
     + destruct v; discriminate.
     + destruct v as [|? ? ?|? ?|? ?|[] ?|[] ?|? ?| |]; discriminate.
   - destruct (if e then _ else _); discriminate.
+  - destruct e; [discriminate|].
+    destruct v as [|? ? ?|? ?|? ?|[] ?|[] ?|? ?| |]; discriminate.
 Qed.
 
 (* AsString on an integer gives its exact decimal text *)
